@@ -88,6 +88,20 @@ pub fn cases(tier: Tier) -> Vec<Case> {
     for (i, s) in g22.all().into_iter().enumerate() {
         out.push(Case { t: s, layout: (i % 4) as u8, elim_first: i % 5 == 0 });
     }
+    // terminals that are nearly, but not exactly, equal: a bias of 2^-60 against 0, a coefficient of 2^-60 against 0,
+    // and two biases one unit in the last place apart (all chosen so that f64 evaluation stays exact)
+    let tiny = (2.0f64).powi(-60);
+    let gn = TreeGen {
+        k: 2,
+        preds: vec![r1(&[1.0, 0.0], 0.0), r1(&[0.0, 1.0], 1.0)],
+        terms: vec![r1(&[0.0, 0.0], 0.0), r1(&[0.0, 0.0], tiny), r1(&[tiny, 0.0], 0.0), r1(&[0.0, 0.0], 1.0), r1(&[0.0, 0.0], 1.0 + f64::EPSILON)],
+        max_depth: 2,
+        max_nodes: 5,
+        partial: true,
+    };
+    for (i, s) in gn.all().into_iter().enumerate() {
+        out.push(Case { t: s, layout: (i % 4) as u8, elim_first: i % 5 == 0 });
+    }
     for levels in 1..=4 {
         for odd in [None, Some(&t1), Some(&t2)] {
             for layout in 0..4u8 {
